@@ -126,7 +126,12 @@ pub fn gen_requests(rng: &mut Rng, n: u64, out: &mut Out) -> Vec<String> {
             if rng.chance(1, 10) { req.push("C11 restart".into()); }
             else if rng.chance(5, 6) { req.push("C11 start".into()); }
         }
-        for _ in 0..rng.range(0, 9) {
+        if attach {
+            // an attached session starts stopped at the gate: most of them get breakpoints / a watchpoint right away
+            if rng.chance(5, 6) { for _ in 0..rng.range(1, 3) { brk(rng, &mut req, &mut fresh, &mut set); } }
+            if rng.chance(1, 3) { let a = lp.quiet + 8 * rng.below(4); watched.push(a); req.push(format!("C11 watch {a:x}")); }
+        }
+        for _ in 0..rng.range(0, 7) {
             match rng.below(20) {
                 0..=8 => req.push("C11 continue".into()),
                 9..=12 => brk(rng, &mut req, &mut fresh, &mut set),
@@ -323,12 +328,13 @@ fn session(lines: &[String], tmpdir: &Path, emit: &mut dyn FnMut(String)) {
     // ---- the specification's own view of the session (independent of the debugger's bookkeeping)
     let full: Vec<(u64, u64)> = std::iter::once((lp.prog.entry, 1)).chain(nat.sites.iter().map(|(k, th)| (lp.site[k], *th))).collect();
     let mut bset: BTreeSet<u64> = BTreeSet::new();       // user breakpoints
-    let mut pos: usize = if !attach { 0 } else if gatepos == 0 { 1 } else { 1 + nat.before_gate1 }; // next site of `full` to be reached
+    let mut pos: usize = if !attach { 0 } else if gatepos == 0 { 0 } else { nat.before_gate1 }; // index in `full` of the last site passed
     #[derive(PartialEq, Clone, Copy, Debug)] enum Ph { NotStarted, Stopped, SigStop, Ended }
     let mut ph = if attach { Ph::Stopped } else { Ph::NotStarted };
     let mut cur_pid: i32 = dbg.as_ref().unwrap().process().pid().as_raw();
     let mut cur_external = attach;
     let mut generation = 0u32;
+    let mut ext_killed_by_restart = false;
     let mut prev_gen_died_by_signal = false;
     let mut detached = false;
     let mut launched: Vec<i32> = if attach { vec![] } else { vec![cur_pid] };
@@ -393,6 +399,7 @@ fn session(lines: &[String], tmpdir: &Path, emit: &mut dyn FnMut(String)) {
             let legal = match t[1] { "start" => ph == Ph::NotStarted, "continue" => ph == Ph::Stopped || ph == Ph::SigStop, _ => true };
             if t[1] == "restart" {
                 prev_gen_died_by_signal = ph == Ph::Ended && prev_end.as_deref().map(|e| e.starts_with('S')).unwrap_or(false);
+                if cur_external && ph != Ph::Ended { ext_killed_by_restart = true; }
                 generation += 1; pos = 0; ph = Ph::NotStarted; cur_external = false; reported_end = None;
                 if !restarted { s.fail("restart-did-not-create-a-process", format!("{line}: process id unchanged ({pre_pid})")); }
             }
@@ -457,7 +464,7 @@ fn session(lines: &[String], tmpdir: &Path, emit: &mut dyn FnMut(String)) {
     if attach {
         let done = wait_for(6000, || ext_res.exists());
         let real = std::fs::read_to_string(&ext_res).unwrap_or_default();
-        let restarted_ext = generation > 0;
+        let restarted_ext = ext_killed_by_restart;
         let want = if restarted_ext { "signal 9".to_string() } else { nat.status.clone() };
         if !done { s.fail("attached-process-does-not-finish-after-release", format!("no wait status from the supervisor of pid {ext_pid} within 6 s; tasks {:?}", tasks(ext_pid).iter().map(|t| proc_status(ext_pid, *t)).collect::<Vec<_>>())); unsafe { libc::kill(ext_pid, libc::SIGKILL) }; }
         else if real != want { s.fail("attached-process-real-exit-status-differs", format!("supervisor saw `{real}`, expected `{want}`")); }
@@ -541,8 +548,8 @@ fn teardown_oracle(s: &mut Sess, cmd: &str, ans: &str, cur_pid: i32, cur_externa
         // detach from a launched program: it must be free (untraced, original text) and run to its native end
         for t in tasks(cur_pid) { if let Some((_, tr)) = proc_status(cur_pid, t) && tr != 0 { s.fail("released-process-still-traced", format!("task {t} of launched {cur_pid} has TracerPid {tr} after `{cmd}`")); } }
         let mut st = 0;
-        let fin = wait_for(4000, || unsafe { libc::waitpid(cur_pid, &mut st, libc::WNOHANG) } == cur_pid);
-        if !fin { s.fail("released-process-does-not-run", format!("launched {cur_pid} did not finish within 4 s after `{cmd}`; state {:?}", proc_status(cur_pid, cur_pid))); return; }
+        let fin = wait_for(12000, || unsafe { libc::waitpid(cur_pid, &mut st, libc::WNOHANG) } == cur_pid);
+        if !fin { s.fail("released-process-does-not-run", format!("launched {cur_pid} did not finish within 12 s after `{cmd}`; state {:?}", proc_status(cur_pid, cur_pid))); return; }
         let real = if libc::WIFEXITED(st) { format!("exit {}", libc::WEXITSTATUS(st)) } else { format!("signal {}", libc::WTERMSIG(st)) };
         if real != s.nat.status { s.fail("released-process-real-exit-status-differs", format!("launched {cur_pid} ended with `{real}` after `{cmd}`, native `{}`", s.nat.status)); }
         return;
@@ -559,7 +566,8 @@ fn teardown_oracle(s: &mut Sess, cmd: &str, ans: &str, cur_pid: i32, cur_externa
     if let Some(d) = exec_maps_diff(cur_pid) && !d.is_empty() { s.fail("patch-left-in-released-process:library", format!("after `{cmd}`: {:x?}", d)); }
     for (tid, v) in peek_dr7_all(cur_pid) {
         match v {
-            Ok(0) => {}
+            // enable bits L0..G3; the RW/LEN fields of a disabled slot are inert (C14 looks at them)
+            Ok(v) if v & 0xff == 0 => {}
             Ok(v) => s.fail("hardware-breakpoint-left-in-released-process", format!("after `{cmd}`: thread {tid} of {cur_pid} has DR7 = {v:#x}")),
             Err(e) => s.fail("released-process-cannot-be-examined", format!("ptrace of thread {tid} failed, errno {e}")),
         }
